@@ -1063,3 +1063,98 @@ func TestC10BuildCancel(t *testing.T) {
 		}
 	})
 }
+
+// TestC12ClosePanics: what a Close does when the Close method of an instance
+// panics is not pinned down by the statement (it speaks of errors), and is not
+// judged: the first Close may panic or report an error. What is judged is the
+// sentence that has no condition attached: calling Close again returns nil and
+// closes nothing a second time - it does not hang, whatever happened to the
+// first call.
+func TestC12ClosePanics(t *testing.T) {
+	col := evid.New("C12", "panicking-close-methods", "configurations biased to disposable services in which the Close methods of a random third of the registrations panic; sequential histories over scope trees (contexts that nobody cancels, so that every Close is an explicit call of the harness) ending in provider close; then Close is called once more on every scope and on the provider, each call bounded by 10 s; oracle: every repeated Close returns (no hang), without panicking, with a nil error, and no instance receives a second Close call; what the first, panicking Close did is not judged; non-trivial = a panicking Close method actually ran")
+	defer col.Flush()
+	rapid.Check(t, func(rt *rapid.T) {
+		cfg := kit.GenConfig(rt, dispOpts())
+		var panicking []int
+		x, err := startRunWith(cfg, nil, func(w *kit.World) {
+			w.ClosePanicRegs = map[int]bool{}
+			for _, r := range w.Cfg.Regs {
+				if r.Form != kit.FormInstance && rapid.IntRange(0, 2).Draw(rt, "closePanics") == 0 {
+					w.ClosePanicRegs[r.ID] = true
+					panicking = append(panicking, r.ID)
+				}
+			}
+		})
+		if err != nil {
+			rt.Fatal(err)
+		}
+		if x.Build.Err != nil || x.Build.Panic != nil {
+			col.Case(false, cfg.String(), nil, "build-failed(not judged here)")
+			return
+		}
+		x.genHistory(rt, histOpts{MaxSteps: 18, MaxDepth: 3, CloseScopes: true, CtxKinds: []int{0, 1}, NoCollEdits: true})
+		canon := fmt.Sprintf("%s\nclose methods that panic: registrations %v", x.describe(), panicking)
+		ran := false
+		for _, e := range x.W.AllEntries() {
+			if x.W.ClosePanicRegs[e.Reg] && e.CloseCount() > 0 {
+				ran = true
+			}
+		}
+		before := map[*kit.Entry]int{}
+		for _, e := range x.W.AllEntries() {
+			before[e] = e.CloseCount()
+		}
+		var f *Failure
+		again := func(what string, closeFn func() error) {
+			if f != nil {
+				return
+			}
+			done := make(chan struct{})
+			var cerr error
+			var pv any
+			go func() {
+				defer close(done)
+				defer func() { pv = recover() }()
+				cerr = closeFn()
+			}()
+			switch {
+			case !kit.WaitOrTimeout(done, 10*time.Second):
+				f = fail("C12", "idempotent", "repeated-close-hangs", "a second Close of %s has not returned after 10 s (an earlier Close of it ran into a panicking Close method)", what)
+			case pv != nil:
+				f = fail("C12", "idempotent", "repeated-close-panics", "a second Close of %s panicked: %v", what, pv)
+			case cerr != nil:
+				f = fail("C12", "idempotent", "repeated-close-error", "a second Close of %s returned %v, want nil", what, firstLine(cerr))
+			}
+		}
+		for _, tag := range x.R.Tags() {
+			rec := x.R.ScopeRecOf(tag)
+			if tag == 0 || rec == nil || !rec.Created || rec.S == nil {
+				continue
+			}
+			again(fmt.Sprintf("scope s%d", tag), rec.S.Close)
+		}
+		if x.R.P != nil {
+			again("the provider", x.R.P.Close)
+		}
+		if f == nil {
+			for _, e := range x.W.AllEntries() {
+				if e.CloseCount() != before[e] {
+					f = fail("C12", "idempotent", "repeated-close-closes", "repeating the Close calls closed %v again (%d -> %d Close calls)", e, before[e], e.CloseCount())
+					break
+				}
+			}
+		}
+		labels := []string{}
+		if ran {
+			labels = append(labels, "panicking-close-ran")
+		}
+		col.Case(ran, canon, canon, labels...)
+		if f != nil {
+			if isKnown(f) {
+				col.Excluded()
+				return
+			}
+			rt.Fatalf("VIOLATION %s\n%s", f, canon)
+		}
+	})
+}
